@@ -51,8 +51,11 @@ Gcd(a, b) == IF b = 0 THEN a ELSE Gcd(b, a % b)
 RNorm(n, d) == LET s == IF d < 0 THEN -1 ELSE 1
                    g == Gcd(DAbsI(n), DAbsI(d)) IN
                IF n = 0 THEN <<0, 1>> ELSE <<(s * n) \div g, (s * d) \div g>>
-RMul(x, y) == RNorm(x[1] * y[1], x[2] * y[2])
-RDiv(x, y) == RNorm(x[1] * y[2], x[2] * y[1])
+RMul(x, y) == LET g1 == Gcd(DAbsI(x[1]), y[2])      \* cross-reduce first: keeps the products inside 32 bits
+                  g2 == Gcd(DAbsI(y[1]), x[2]) IN
+              IF x[1] = 0 \/ y[1] = 0 THEN <<0, 1>>
+              ELSE RNorm((x[1] \div g1) * (y[1] \div g2), (x[2] \div g2) * (y[2] \div g1))
+RDiv(x, y) == IF y[1] < 0 THEN RMul(x, <<-y[2], -y[1]>>) ELSE RMul(x, <<y[2], y[1]>>)
 RAdd(x, y) == RNorm(x[1] * y[2] + y[1] * x[2], x[2] * y[2])
 RNeg(x)    == <<-x[1], x[2]>>
 RSign(x)   == IF x[1] > 0 THEN 1 ELSE IF x[1] < 0 THEN -1 ELSE 0
@@ -206,6 +209,71 @@ Observe(x, Dev) ==
 DevMap(x) ==
   LET ideal == Observe(x, {}) IN
   [d \in {d \in AllDevs : Observe(x, {d}) # ideal} |-> Observe(x, {d})]
+
+---------------------------------------------------------------------------
+(* Compound units (areas, speeds, inverse lengths, ...).  An operand is      *)
+(* [n, d, us] with us a sequence of [u, e] (unit, exponent # 0).  Two unit    *)
+(* sets are compatible iff they have the same dimension vector; one b-unit    *)
+(* set is then  CFactor = prod Ratio(u)^e over b / prod Ratio(u)^e over a     *)
+(* a-unit sets - the product of the per-unit CSS ratios to their exponents.   *)
+(* Observable for + and -: the result measured in a's own unit set            *)
+(* (math.div($a + $b, <1 of a's units>)), a unitless number; for max / min:   *)
+(* whether the result equals $a.                                              *)
+RECURSIVE RPow(_, _)
+RPow(q, e) == IF e = 0 THEN <<1, 1>> ELSE IF e > 0 THEN RMul(q, RPow(q, e - 1)) ELSE RDiv(RPow(q, e + 1), q)
+RECURSIVE BaseF(_, _)
+(* the unit set in base units: <<rational, pi exponent>> *)
+BaseF(us, Dev) == IF us = <<>> THEN <<<<1, 1>>, 0>>
+                  ELSE LET r    == Ratio(us[1].u, Dev)
+                           rest == BaseF(Tail(us), Dev) IN
+                       <<RMul(RPow(<<r[1], r[2]>>, us[1].e), rest[1]), r[3] * us[1].e + rest[2]>>
+CFactor(from, to, Dev) == LET f == BaseF(from, Dev)
+                              t == BaseF(to, Dev)
+                              q == RDiv(f[1], t[1]) IN
+                          [n |-> q[1], d |-> q[2], pi |-> f[2] - t[2]]
+DimsOf(us, Dev) == {Dim(us[i].u, Dev) : i \in DOMAIN us}
+DimExp(us, dm, Dev) == LET idx == {i \in DOMAIN us : Dim(us[i].u, Dev) = dm} IN
+                       IF idx = {} THEN 0
+                       ELSE LET RECURSIVE Sum(_)
+                                Sum(S) == IF S = {} THEN 0 ELSE LET i == CHOOSE i \in S : TRUE IN us[i].e + Sum(S \ {i})
+                            IN Sum(idx)
+DimVec(us, Dev) == {<<dm, DimExp(us, dm, Dev)>> : dm \in {dm \in DimsOf(us, Dev) : DimExp(us, dm, Dev) # 0}}
+
+ObserveC(x, Dev) ==
+  LET a  == RNorm(x.a.n, x.a.d)
+      b  == RNorm(x.b.n, x.b.d)
+      op == x.op
+      compat == DimVec(x.a.us, Dev) = DimVec(x.b.us, Dev) IN
+  IF \E i \in DOMAIN x.a.us : x.a.us[i].u \in Unknown THEN Undef
+  ELSE IF \E i \in DOMAIN x.b.us : x.b.us[i].u \in Unknown THEN Undef
+  ELSE IF ~compat THEN
+       (IF op \in {"+", "-"} THEN (IF "incompatible_add_unevaluated" \in Dev THEN Uneval ELSE Err)
+        ELSE IF op \in {"<", "<=", ">", ">="} THEN (IF "incompatible_cmp_false" \in Dev THEN Bool(FALSE) ELSE Err)
+        ELSE IF op = "==" THEN FalseOrErr
+        ELSE IF op \in {"max", "min"} THEN Err
+        ELSE Undef)
+  ELSE LET f    == CFactor(x.b.us, x.a.us, Dev)
+           bs   == VScale(VRat(b), f)                 \* b in a's unit set
+           diff == VSign(VAdd(VRat(a), VNeg(bs))) IN
+       IF op = "+" THEN Num(<<Alt(U0, VAdd(VRat(a), bs))>>)
+       ELSE IF op = "-" THEN Num(<<Alt(U0, VAdd(VRat(a), VNeg(bs)))>>)
+       ELSE IF diff = 2 THEN Undef
+       ELSE IF op \in {"<", "<=", ">", ">=", "=="} THEN Bool(RelHolds(op, diff))
+       ELSE IF op = "max" THEN Bool(diff >= 0)        \* max($a, $b) == $a
+       ELSE IF op = "min" THEN Bool(diff <= 0)
+       ELSE Undef
+
+DevMapC(x) ==
+  LET ideal == ObserveC(x, {}) IN
+  [d \in {d \in AllDevs : ObserveC(x, {d}) # ideal} |-> ObserveC(x, {d})]
+
+(* laws: compound conversion composes from the per-unit table, and is inverse to itself *)
+LawsHoldC(x) ==
+  LET f == CFactor(x.b.us, x.a.us, {})
+      g == CFactor(x.a.us, x.b.us, {})
+      r == ObserveC(x, {}) IN
+  /\ (DimVec(x.a.us, {}) = DimVec(x.b.us, {}) => (RMul(<<f.n, f.d>>, <<g.n, g.d>>) = <<1, 1>> /\ f.pi + g.pi = 0))
+  /\ (x.op \in {"<", "<=", ">", ">=", "=="} => r = ObserveC([op |-> (CASE x.op = "<" -> ">" [] x.op = "<=" -> ">=" [] x.op = ">" -> "<" [] x.op = ">=" -> "<=" [] OTHER -> x.op), a |-> x.b, b |-> x.a], {}))
 
 ---------------------------------------------------------------------------
 (* Laws of the ideal table, checked by TLC on every generated input.        *)
